@@ -179,4 +179,17 @@ def run(ctx, chk):
     _cacheA = _OA.PathCache(prog, eff)
     check_automaton(chk, "C14.automaton", prog, eff, _cacheA, _tsA.CallSites(prog, eff, _cacheA, _H, _PA))
     check_record_items(chk, "C14.record-items", prog, eff)
+    chk.rule("C14.stateless", "the decoder is a function of its arguments: nothing reachable from cbor_load / cbor_stream_decode writes an object with static storage "
+             "(no memo of the previous call, no flag that survives it) - the answer for a buffer does not depend on what was decoded before "
+             "(transitive write sets from the effects engine; shared with C17.no-global-write)")
+    import rules as _rst
+    _rst.check_stateless(chk, "C14.stateless", prog, eff, ('cbor_load', 'cbor_stream_decode'))
+    chk.rule("C14.attach", "a chunk callback hands its chunk to the parent as an ordinary item only on paths that know no indefinite string of its kind is "
+             "open: an item whose encoding contains an (empty) chunk decodes, so a sequence containing it can be split (shared with C02.attach)")
+    import ownership as _Oat
+    import typestate as _tsat
+    from props.c02 import check_plain_when, wired_builders
+    _Hat, _PAat, _IFat, _xat = ctx.typestate()
+    _cat14 = _Oat.PathCache(prog, eff)
+    check_plain_when(chk, "C14.attach", prog, _cat14, wired_builders(prog), _tsat.CallSites(prog, eff, _cat14, _Hat, _PAat))
     chk.exhaustive = True
